@@ -538,7 +538,14 @@ func (interp *Interpreter) EvalPathWithContext(ctx context.Context, path string)
 	interp.startRun()
 	done := make(chan struct{})
 	go func() {
-		defer close(done)
+		defer func() {
+			if r := recover(); r != nil {
+				var pc [64]uintptr
+				n := runtime.Callers(1, pc[:])
+				err = Panic{Value: r, Callers: pc[:n], Stack: debug.Stack()}
+			}
+			close(done)
+		}()
 		res, err = interp.evalPath(path)
 	}()
 
